@@ -204,6 +204,11 @@ var embeddedFile = func() string {
 	return string(b)
 }()
 
+// tailLike: string values that read as "footer length, magic" - the last eight bytes of a file - with lengths around 64 KiB
+// (tokens 994..996); cut right behind such a value, a file of more than 64 KiB ends in a well-formed trailer whose length
+// points just outside, at or just inside a 64 KiB window
+var tailLike = map[int]string{996: "\xff\xff\x00\x00PAR1", 995: "\x00\x00\x01\x00PAR1", 994: "\xf9\xff\x00\x00PAR1"}
+
 func poolVal(typ string, tok, poff int) interface{} {
 	p := pools[typ]
 	i := (tok + poff) % len(p)
@@ -258,6 +263,13 @@ func tokOfBits(typ string, bits uint64, bs []byte, poff int) int {
 	}
 	if typ == "string" && string(bs) == embeddedFile {
 		return 997
+	}
+	if typ == "string" {
+		for t, v := range tailLike {
+			if string(bs) == v {
+				return t
+			}
+		}
 	}
 	if typ == "string" && string(bs) == bigString {
 		return 999
@@ -340,6 +352,10 @@ func (c buildCtx) fillBase(v reflect.Value, a interface{}) {
 		}
 		if k == "string" && tok == 997 {
 			v.SetString(embeddedFile)
+			return
+		}
+		if tl, ok := tailLike[tok]; ok && k == "string" {
+			v.SetString(tl)
 			return
 		}
 		v.Set(reflect.ValueOf(poolVal(k, tok, c.poff)).Convert(t))
@@ -1721,6 +1737,9 @@ func bulkAbstract(kids []node, i int, salt int) []interface{} {
 		one := func(j int) interface{} {
 			if n.Typ == "group" {
 				return bulkAbstract(n.Kids, i+j, my)
+			}
+			if n.Typ == "string" && i%89 == 7 {
+				return 996 - (i/89)%3 // a value that reads as the last eight bytes of a file (see tailLike)
 			}
 			return (i*7 + my*3 + j*5) % 16
 		}
